@@ -178,7 +178,7 @@ func foldGrid() {
 		for ei, rc := range []wazero.RuntimeConfig{wazero.NewRuntimeConfigInterpreter(), wazero.NewRuntimeConfigCompiler()} {
 			rt := wazero.NewRuntimeWithConfig(ctx, rc.WithCoreFeatures(features))
 			mods[ei] = rt
-			mod, err := rt.Instantiate(ctx, bin)
+			mod, err := safeInstantiate(ctx, rt, bin)
 			if err != nil {
 				hx.Fatal("fold grid module (generator bug): %v", err)
 			}
